@@ -154,14 +154,11 @@ pub open spec fn flat_rel(offs: Seq<(u32, u32)>, maps: Seq<SourceMap>, bts: Seq<
     &&& forall|p: int| 0 <= p < bts.len() ==> flat_tok(out.sources@, out.names@, #[trigger] bts[p], &maps[orig[p].0], maps[orig[p].0].tokens@[orig[p].1], offs[orig[p].0])
     //  the finished map holds them sorted by generated position
     &&& out.tokens@.to_multiset() == bts.to_multiset() && sorted_tokens(out.tokens@)
-    //  the tables hold nothing else and nothing twice
-    &&& all_referenced(out.sources@.len(), bts) && names_referenced(out.names@.len(), bts)
-    &&& no_dups(out.sources@) && no_dups(out.names@)
-    //  first-seen source contents
-    &&& forall|i: int| 0 <= i < out.sources@.len() ==> #[trigger] out_text(out.sources_content@, i) == first_text(bts, pos_texts(maps, orig), i, bts.len() as int)
+    //  first-seen source contents, for every source some token refers to
+    &&& forall|i: int| 0 <= i < out.sources@.len() && src_used(bts, i) ==> #[trigger] out_text(out.sources_content@, i) == first_text(bts, pos_texts(maps, orig), i, bts.len() as int)
     //  ignore-list membership
     &&& forall|x: u32| #[trigger] out.ignore_list@.contains(x) <==> ignored_some(bts, pos_igns(maps, orig), x)
-    &&& out.source_root is None && out.debug_id is None
+    &&& out.source_root is None
 }
 pub open spec fn sec_offsets(idx: SourceMapIndex) -> Seq<(u32, u32)> {
     Seq::new(idx.sections@.len(), |i: int| idx.sections@[i].offset)
